@@ -620,8 +620,10 @@ def _call_target(target, variant, seed, prior, td, fail_at=None, outer_seed=None
         smod = sys.modules[stub[0]]
         saved = getattr(smod, stub[1])
         setattr(smod, stub[1], _stub_convert_to_phase)
+    cwd = os.getcwd()
     try:
         det, kw = fx(td, variant)
+        os.chdir(td)                                 # cosmix writes 'data/cosmix-*.npy' relative to the working directory
         if "seed" in inspect.signature(func).parameters:
             kw = dict(kw, seed=seed if outer_seed is None else None)
         set_prior(prior)
@@ -641,6 +643,7 @@ def _call_target(target, variant, seed, prior, td, fail_at=None, outer_seed=None
         after = gstate()
         return {"before": before, "after": after, "out": snap(det), "exc": exc, "draws": seam.n}
     finally:
+        os.chdir(cwd)
         if stub:
             setattr(smod, stub[1], saved)
 
